@@ -1146,3 +1146,45 @@ def atom_is_cmp(e, xpred, ops, ypred):
         if op:
             return cmp_is(F.Cond('cmp', op=op, lhs=e.b[0], rhs=e.b[1]), xpred, ops, ypred)
     return False
+
+
+def duration_secs(prog, e):
+    """whole seconds of a Duration expression: Duration::from_secs(<const>) / from_millis, or a named Duration constant
+    (evaluated by the driver); None when it cannot be determined"""
+    m = e.mentions_call(r'Duration::from_secs$')
+    if m is not None and m.b:
+        v = m.b[0].const_value()
+        if v is None and m.b[0].strip().k == 'const' and m.b[0].strip().d in prog.consts:
+            v = prog.const_val(m.b[0].strip().d)
+        return v
+    m = e.mentions_call(r'Duration::from_millis$')
+    if m is not None and m.b and isinstance(m.b[0].const_value(), int):
+        return m.b[0].const_value() / 1000.0
+    st = e.strip()
+    if st.k == 'const' and st.d in prog.consts:
+        txt = prog.consts[st.d].get('txt', '')
+        mm = re.search(r'secs: (\d+)_u64, nanos: [^(]*\((\d+)_u32', txt)
+        if mm:
+            return int(mm.group(1)) + int(mm.group(2)) / 1e9 if int(mm.group(2)) else int(mm.group(1))
+    return None
+
+
+def body_field_writes(b, adt, field):
+    """writes to `adt::field` inside one (possibly inlined) body: [(bb, kind, thing)], kind as in field_writes"""
+    tag = '.%s::%s' % (adt, field)
+    out = []
+    for bi, si, s in b.stmts():
+        d = s['d']
+        if tag in d[1:]:
+            out.append((bi, 'assign', s))
+        r = s['r']
+        if r['k'] == 'ref' and r['m'] == 'mut' and tag in r['p'][1:]:
+            idx = r['p'].index(tag)
+            if '*' not in r['p'][idx + 1:]:
+                out.append((bi, 'mut-borrow', s))
+        if r['k'] == 'agg' and r.get('adt') == adt and field in (r.get('fields') or []):
+            out.append((bi, 'aggregate', s))
+    for bi, t in b.terms():
+        if t['k'] == 'call' and tag in t['d'][1:]:
+            out.append((bi, 'call-dest', t))
+    return out
